@@ -1,6 +1,7 @@
 import ArimModel.Views
 import ArimProofs.Generated.C18Table
 import ArimProofs.Lemmas.Views
+import Mathlib.Data.List.Perm.Basic
 /-! # C18 — views and paths mean what their names say; unique views are reciprocity classes -/
 namespace Arim.C18
 open Arim.Views
@@ -369,5 +370,32 @@ theorem viewnames_unique_eq_filter (names : List Word) (hn : names.Nodup)
 example : makeViewnames [['L'], ['T'], ['L','T'], ['T','L']] true
     = (makeViewnames [['L'], ['T'], ['L','T'], ['T','L']] false).filter
         (fun v => !keyLt (recip v) v) := by decide
+
+
+/-! ### The views do not depend on the order in which the path names are given
+
+`make_viewnames` receives the keys of a dictionary: the same set of paths listed in any order gives the same views in the
+same order, with and without the reciprocity filter. -/
+
+theorem allPairs_perm {a b : List Word} (h : a.Perm b) : (allPairs a).Perm (allPairs b) := by
+  unfold allPairs
+  exact (List.Perm.flatMap_left a (fun tx _ => h.map (fun rx => (tx, rx)))).trans
+    (List.Perm.flatMap_right (fun tx => b.map (fun rx => (tx, rx))) h)
+
+/-- **order independence**: for distinct path names, `make_viewnames` of any rearrangement of the names is the same list -/
+theorem viewnames_perm_invariant (names names' : List Word) (hp : names.Perm names') (hn : names.Nodup) (u : Bool) :
+    makeViewnames names' u = makeViewnames names u := by
+  have hn' : names'.Nodup := hp.nodup_iff.mp hn
+  have h0 : makeViewnames names' false = makeViewnames names false :=
+    viewnames_unique_order' names (makeViewnames names' false)
+      ((viewnames_all_pairs names').trans (allPairs_perm hp.symm)) (viewnames_strict_sorted names' hn')
+  cases u with
+  | false => exact h0
+  | true =>
+    have e1 : makeViewnames names' true = filterUnique (makeViewnames names' false) := by simp [makeViewnames]
+    have e2 : makeViewnames names true = filterUnique (makeViewnames names false) := by simp [makeViewnames]
+    rw [e1, e2, h0]
+
+example : makeViewnames [['T'], ['L','T'], ['L'], ['T','L']] true = makeViewnames [['L'], ['T'], ['L','T'], ['T','L']] true := by decide
 
 end Arim.C18
